@@ -26,7 +26,7 @@ def norm(s: str) -> str:
     return s
 
 
-_CLOSURE = re.compile(r"::\{closure#\d+\}")
+_CLOSURE = re.compile(r"::\{closure#[^}]*\}")
 
 
 def region_of(key: str) -> str:
@@ -326,6 +326,10 @@ def callee_def(t) -> str | None:
     return norm(c["def"])
 
 
+# When set, every Facts() is the normalised (single-use helpers and directly called closures inlined) view: see inline.py
+NORMALISE = False
+
+
 class Facts:
     def __init__(self, paths):
         self.crates = {}
@@ -384,6 +388,23 @@ class Facts:
             for m in im["methods"]:
                 if "trait_item" in m:
                     self.trait_impls[m["trait_item"]].append(m["key"])
+        self._register_closures()
+        self.inlined = None
+        if NORMALISE:
+            import inline
+            n = inline.rehome(self) if NORMALISE == "rehome" else inline.normalise(self, closures=(NORMALISE == "inline-closures"))
+            self.funcs = n.funcs
+            self.inlined = n.inlined
+            self._cg = None
+            self._closures_by_region = None
+            self._rev = None
+            self._register_closures()
+
+    def _register_closures(self):
+        import flow
+        for k, f in self.funcs.items():
+            if f.is_closure() and f.upvars:
+                flow.CLOSURE_FIELDS[k] = [next((x for x in u["place"]["p"] if x.startswith(".^")), None) for u in f.upvars]
 
     # ---- lookups --------------------------------------------------------------------------
     def fn(self, key) -> Func:
